@@ -54,18 +54,30 @@ theorem BI.knOK {scope : List String} {s : CState} (bi : BI scope ρ σ0 s) : Kn
 
 /-- what the right-hand side of `r = e` establishes: `t1` the state after `compile_expr`, `iret` its result;
 the known names are those of the scope other than `r` (a `_ret…` name bound to a copy is re-bound already) -/
-structure TopG (scope : List String) (ρ : Env) (σ0 : FState) (r : String) (v : Bool) (s t1 : CState) (iret : Nat) :
-    Prop where
+structure TopG (scope : List String) (ρ : Env) (σ0 : FState) (r : String) (v : Bool) (nc : Bool) (s t1 : CState)
+    (iret : Nat) : Prop where
   gi : GI (fun n => Known scope n ∧ n ≠ r) ρ σ0 s t1
   nav : ¬ Avail t1 iret
   val : cur σ0 t1 iret = v
   nm : iret ∉ t1.qc.marked
   pend : ∀ a ∈ t1.qc.anc, a ∉ t1.qc.free → a ∉ t1.qc.kept → a ∉ t1.qc.marked → a = iret
+  /-- qubits in use when the statement started are not written -/
+  frame : ∀ q, ¬ Avail s q → cur σ0 t1 q = cur σ0 s q
+  akeep : ∀ a ∈ s.qc.anc, a ∈ t1.qc.anc
+  /-- a right-hand side without constants allocates ancillas only (and the qubit of a `_ret…` copy) -/
+  alloc : nc = false → ∀ q, s.qc.numQubits ≤ q → q < t1.qc.numQubits → q ∈ t1.qc.anc ∨ q = iret
+
+/-- the frame facts of `TopG` from the frame of the compilation of the right-hand side -/
+theorem top_frame {Kn : String → Prop} {s t1 : CState} {D R C E : Nat → Prop} {iret : Nat} {nc : Bool}
+    (fr : Fr Kn σ0 s s t1 D R C E) (hD : ∀ q, ¬ Avail s q → ¬ D q) (hE : nc = false → ∀ q, E q → q = iret) :
+    (∀ q, ¬ Avail s q → cur σ0 t1 q = cur σ0 s q) ∧ (∀ a ∈ s.qc.anc, a ∈ t1.qc.anc) ∧
+    (nc = false → ∀ q, s.qc.numQubits ≤ q → q < t1.qc.numQubits → q ∈ t1.qc.anc ∨ q = iret) :=
+  ⟨fun q hq => fr.val q hq (hD q hq), fr.akeep, fun hn q h1 h2 => (fr.alloc q h1 h2).imp id (hE hn q)⟩
 
 /-- no ancilla in use is left unmarked by a piece of compilation that started between two statements, except
 its result -/
-theorem pend_top {Kn : String → Prop} {scope : List String} {s t1 : CState} {D R C : Nat → Prop} {iret : Nat}
-    (bi : BI scope ρ σ0 s) (fr : Fr Kn σ0 s s t1 D R C) (hR : ∀ q, R q → q = iret) :
+theorem pend_top {Kn : String → Prop} {scope : List String} {s t1 : CState} {D R C E : Nat → Prop} {iret : Nat}
+    (bi : BI scope ρ σ0 s) (fr : Fr Kn σ0 s s t1 D R C E) (hR : ∀ q, R q → q = iret) :
     ∀ a ∈ t1.qc.anc, a ∉ t1.qc.free → a ∉ t1.qc.kept → a ∉ t1.qc.marked → a = iret := by
   intro a h1 h2 h3 h4
   rcases fr.pend a h1 h2 h3 h4 with ⟨a1, a2, _⟩ | hh
@@ -86,7 +98,7 @@ theorem GIh.marked_av0 {Kn : String → Prop} {H : Nat → Prop} {s0 s : CState}
 theorem copyTop_g {scope : List String} {n r : String} {q a : Nat} {u : Unit} {s t0 t : CState}
     (bi : BI scope ρ σ0 s) (hn : n ∈ scope) (hnr : n ≠ r)
     (hadd : (addQubit r).run s = .ok (a, t0)) (hq : dictGet? t0.qc.qmap n = some q)
-    (hcx : (cx q a).run t0 = .ok (u, t)) : TopG scope ρ σ0 r (ρ n) s t a := by
+    (hcx : (cx q a).run t0 = .ok (u, t)) {nc : Bool} : TopG scope ρ σ0 r (ρ n) nc s t a := by
   have gi0 : GI (fun n => Known scope n ∧ n ≠ r) ρ σ0 s s := bi.start.monoKn (fun _ h => h.1)
   obtain ⟨gi1, fr1, ha, hcur, pd, hava, hqa, hna, hnf, hex, hmk, hqm⟩ := addQubit_gi hadd gi0 (fun _ h => h.2)
   have hk : Known scope n ∧ n ≠ r := ⟨Or.inl hn, hnr⟩
@@ -94,7 +106,11 @@ theorem copyTop_g {scope : List String} {n r : String} {q a : Nat} {u : Unit} {s
   obtain ⟨gi2, fr2, pd2, tg2, ac, _⟩ := gateP (cs := [q]) (t := a) hcx gi1 rfl rfl
     (by intro c hc; have : c = q := by simpa using hc
         rw [this]; exact hnavq) pd
-  refine ⟨gi2, pd2.nav, ?_, pd2.nm, pend_top bi (fr1.trans fr2) (fun _ hh => hh.elim (fun h' => h'.elim) (fun h' => h'.elim))⟩
+  obtain ⟨f1, f2, f3⟩ := top_frame (nc := nc) (iret := a) (fr1.trans fr2)
+    (fun x hx hh => hh.elim (fun h' => h') (fun h' => hx (h' ▸ hava)))
+    (fun _ x hh => hh.elim (fun h' => h') (fun h' => h'.elim))
+  refine ⟨gi2, pd2.nav, ?_, pd2.nm, pend_top bi (fr1.trans fr2) (fun _ hh => hh.elim (fun h' => h'.elim) (fun h' => h'.elim)),
+    f1, f2, f3⟩
   rw [ac.cur_eq rfl σ0, hcur, bi.zero a hava]
   simp only [List.all_cons, List.all_nil, Bool.and_true, Bool.false_bne]
   rw [← hcur, (gi1.names n q hk hq).2.2, kval_scope bi.scopeOK hn]
@@ -107,15 +123,15 @@ theorem cx_same_fails {a : Nat} {u : Unit} {s s' : CState} (h : (cx a a).run s =
   split at this <;> cases this
 
 theorem topSym_g {scope : List String} {n r : String} {iret : Nat} {s t : CState}
-    (h : (compileSymbol n (some r)).run s = .ok (iret, t)) (bi : BI scope ρ σ0 s) (hn : n ∈ scope) :
-    TopG scope ρ σ0 r (ρ n) s t iret := by
+    (h : (compileSymbol n (some r)).run s = .ok (iret, t)) (bi : BI scope ρ σ0 s) (hn : n ∈ scope) {nc : Bool} :
+    TopG scope ρ σ0 r (ρ n) nc s t iret := by
   have hk : Known scope n := Or.inl hn
   have alias : ∀ {a : Nat} {s' : CState}, StateT.run (do
       let qc ← getQC
       match dictGet? qc.qmap n with
         | some i => pure i
         | none => throw s!"CompilerException: Symbol not found in qc: {n}" : M Nat) s = .ok (a, s') →
-      TopG scope ρ σ0 r (ρ n) s s' a := by
+      TopG scope ρ σ0 r (ρ n) nc s s' a := by
     intro a s' h
     obtain ⟨qc, s1, hq, h⟩ := run_bind_ok.mp h
     obtain ⟨rfl, rfl⟩ := getQC_run hq
@@ -124,15 +140,15 @@ theorem topSym_g {scope : List String} {n r : String} {iret : Nat} {s t : CState
       obtain ⟨rfl, rfl⟩ := run_pure_ok.mp h
       obtain ⟨t1, t2, t3⟩ := bi.names n _ hk hj
       refine ⟨bi.start.monoKn (fun _ h => h.1), bi.start.name_nav hk hj, by rw [t3, kval_scope bi.scopeOK hn],
-        by rw [bi.nomark]; exact List.not_mem_nil, pend_top (Kn := Known scope) bi (Fr.refl (D := NoN) (R := NoN) (C := NoN) _)
-          (fun _ hh => hh.elim)⟩
+        by rw [bi.nomark]; exact List.not_mem_nil, pend_top (Kn := Known scope) bi (Fr.refl (D := NoN) (R := NoN) (C := NoN) (E := NoN) _)
+          (fun _ hh => hh.elim), fun _ _ => rfl, fun _ h => h, fun _ q h1 h2 => absurd h2 (by omega)⟩
     · exact (run_throw_ok.mp h).elim
-  have aliasq : ∀ {q : Nat}, dictGet? s.qc.qmap n = some q → TopG scope ρ σ0 r (ρ n) s s q := by
+  have aliasq : ∀ {q : Nat}, dictGet? s.qc.qmap n = some q → TopG scope ρ σ0 r (ρ n) nc s s q := by
     intro q hj
     obtain ⟨t1, t2, t3⟩ := bi.names n _ hk hj
     exact ⟨bi.start.monoKn (fun _ h => h.1), bi.start.name_nav hk hj, by rw [t3, kval_scope bi.scopeOK hn],
-      by rw [bi.nomark]; exact List.not_mem_nil, pend_top (Kn := Known scope) bi (Fr.refl (D := NoN) (R := NoN) (C := NoN) _)
-        (fun _ hh => hh.elim)⟩
+      by rw [bi.nomark]; exact List.not_mem_nil, pend_top (Kn := Known scope) bi (Fr.refl (D := NoN) (R := NoN) (C := NoN) (E := NoN) _)
+        (fun _ hh => hh.elim), fun _ _ => rfl, fun _ h => h, fun _ q h1 h2 => absurd h2 (by omega)⟩
   unfold compileSymbol at h
   dsimp only at h
   split at h
@@ -180,8 +196,11 @@ theorem topSym_g {scope : List String} {n r : String} {iret : Nat} {s t : CState
           obtain ⟨gi2, fr2, pd2, tg2, ac, _⟩ := gateP (cs := [q]) (t := iret) hcx gi1 rfl rfl
             (by intro c hc; have : c = q := by simpa using hc
                 rw [this]; exact hnavq) pd
+          obtain ⟨f1, f2, f3⟩ := top_frame (nc := nc) (iret := iret) (fr1.trans fr2)
+            (fun x hx hh => hh.elim (fun h' => h') (fun h' => hx (h' ▸ hava)))
+            (fun _ x hh => hh.elim (fun h' => h') (fun h' => h'.elim))
           refine ⟨gi2, pd2.nav, ?_, pd2.nm, pend_top bi (fr1.trans fr2)
-            (fun _ hh => hh.elim (fun h' => h'.elim) (fun h' => h'.elim))⟩
+            (fun _ hh => hh.elim (fun h' => h'.elim) (fun h' => h'.elim)), f1, f2, f3⟩
           rw [ac.cur_eq rfl σ0, hcur, bi.zero iret hava]
           simp only [List.all_cons, List.all_nil, Bool.and_true, Bool.false_bne]
           rw [t3', kval_scope bi.scopeOK hn]
@@ -198,15 +217,17 @@ theorem topSym_g {scope : List String} {n r : String} {iret : Nat} {s t : CState
 theorem topExpr_g {scope : List String} {e : BExp} {r : String} {iret : Nat} {s t : CState}
     (h : (compileExpr e none (some r)).run s = .ok (iret, t)) (bi : BI scope ρ σ0 s)
     (hwf : wfExpG scope e = true) (hsn : selfNot r e = false) :
-    TopG scope ρ σ0 r (e.eval ρ) s t iret := by
+    TopG scope ρ σ0 r (e.eval ρ) (hasConst e) s t iret := by
   have gen : ∀ (sym : Option String), (compileExpr e none sym).run s = .ok (iret, t) →
       (isLeaf e = true → sym = none) → (∀ x, sym = some x → selfNot x e = false) →
-      TopG scope ρ σ0 r (e.eval ρ) s t iret := by
+      TopG scope ρ σ0 r (e.eval ρ) (hasConst e) s t iret := by
     intro sym h' hl hs
     obtain ⟨gi, fr, hv, _⟩ := exprG (σ0 := σ0) (s0 := s) bi.knOK e hwf none sym h' bi.start
       (by intro d hd; cases hd) (fun hle => ⟨rfl, hl hle⟩) hs
     have res := hv rfl
-    refine ⟨gi.monoKn (fun _ hh => hh.1), res.nav, res.val, ?_, pend_top bi fr (fun _ hh => hh)⟩
+    obtain ⟨f1, f2, f3⟩ := top_frame (nc := hasConst e) (iret := iret) fr (fun _ _ hh => by cases hh)
+      (fun hn _ hh => by rw [hn] at hh; cases hh)
+    refine ⟨gi.monoKn (fun _ hh => hh.1), res.nav, res.val, ?_, pend_top bi fr (fun _ hh => hh), f1, f2, f3⟩
     intro hm
     have hav := gi.marked_av0 hm
     exact (res.fresh hav).2 hm
